@@ -39,6 +39,9 @@ type Budget struct {
 	Plans        int
 	PlansPerProc int
 	Wall         time.Duration
+	// MinPlans: plans with index below this are executed even when the wall budget is used up
+	// (hard cap 5x Wall), so that what a tier covers does not collapse on a loaded machine.
+	MinPlans int
 }
 
 type Description struct {
@@ -240,6 +243,10 @@ func Check(h Harness, o Options) int {
 		o.Procs = runtime.NumCPU()
 	}
 	deadline := t0.Add(b.Wall)
+	hardDeadline := t0.Add(5 * b.Wall)
+	if o.PlansOver > 0 || o.WallOver > 0 {
+		b.MinPlans = 0
+	}
 	fmt.Printf("VERIF_SEED=%d property=%s tier=%s plans<=%d wall<=%s procs=%d\n", o.Seed, h.ID(), o.Tier, b.Plans, b.Wall, o.Procs)
 
 	tmp, err := ioutil.TempDir("", "verifsim-"+h.ID()+"-")
@@ -276,16 +283,20 @@ func Check(h Harness, o Options) int {
 				mu.Lock()
 				s := stop
 				mu.Unlock()
-				if s || time.Now().After(deadline) {
+				dl := deadline
+				if c.from < b.MinPlans {
+					dl = hardDeadline
+				}
+				if s || time.Now().After(dl) {
 					continue
 				}
 				out := filepath.Join(tmp, fmt.Sprintf("w%d-%d.json", w, c.from))
 				cmd := exec.Command(o.Self, "worker", "-prop", h.ID(), "-tier", o.Tier, "-seed", strconv.FormatUint(o.Seed, 10),
 					"-from", strconv.Itoa(c.from), "-to", strconv.Itoa(c.to), "-out", out,
-					"-deadline", strconv.FormatInt(deadline.UnixNano(), 10), "-verif", o.VerifDir)
+					"-deadline", strconv.FormatInt(dl.UnixNano(), 10), "-verif", o.VerifDir)
 				cmd.Dir = tmp
 				cmd.Env = append(os.Environ(), "VERIF_WORKDIR="+filepath.Join(tmp, fmt.Sprintf("wd%d", w)))
-				outb, err := runWithWatchdog(cmd, b.Wall+5*time.Minute)
+				outb, err := runWithWatchdog(cmd, 5*b.Wall+5*time.Minute)
 				rb, rerr := ioutil.ReadFile(out)
 				os.Remove(out)
 				if rerr != nil {
